@@ -32,10 +32,14 @@ TRUSTED = ["stub native layer and loaders props/_c20_stub.py (the C layers of th
            "documented contract transcribed by hand in coq/C20/Spec.v (docs/index.rst, property text, Py_BuildValue order of the C sources)",
            "CPython: errno -> OSError subclass mapping (PEP 3151), ipaddress module"]
 ASSUMPTIONS = ["only the Python layers of the platforms are exercised; native C code is stubbed",
-               "one failing native call per run (all invocations of that call fail); ladder probes (is_zombie, pid_exists, pids) are answered truthfully",
-               "Process.wait() and AIX open_files() (subprocess) are not driven"]
-EXHAUSTIVE = {"quick": "the whole ladder space (platform x method x failing call x error x state x pid) and all documented layouts",
-              "thorough": "the whole ladder space; 40 random records per documented layout; 300 front-end rows per platform"}
+               "one failing native call per run (all its invocations fail), plus the documented two-call pairs and PARTIAL_COPY retry counts; "
+               "ladder probes (is_zombie, pid_exists, pids) run for real over the world model and are answered truthfully",
+               "wait() is driven with timeout 0 only; AIX open_files() (subprocess) is not driven; the system-wide functions are not called "
+               "(their named-tuple classes are read)"]
+EXHAUSTIVE = {"quick": "the whole ladder space (platform x method x failing call x error x state x pid), every native status code, all e1 x e2 of "
+                       "the documented two-call pairs (Windows: 2 of 4 state/pid combinations), retry counts 1/2/32/33/34, wait scenarios, "
+                       "all documented layouts, 7 x 5 system tuples",
+              "thorough": "as quick with all state/pid combinations of the pairs; 40 random records per documented layout; 300 front-end rows per platform"}
 
 PLATS = ["freebsd", "openbsd", "netbsd", "macos", "sunos", "aix", "windows"]
 COQ_PLAT = dict(freebsd="FreeBSD", openbsd="OpenBSD", netbsd="NetBSD", macos="MacOS", sunos="SunOS", aix="AIX", windows="Windows")
@@ -514,18 +518,22 @@ def impl_run(case, coq, env):
 
 
 MANIFEST = {
-    "text": "Theorems (Coq, closed under the global context). About the hand-written model of the five wrap_exceptions ladders and the "
-            "per-method handlers: for every platform, method name, failing native call, error, process state and pid the outcome is the one "
-            "the documented contract demands (NoSuchProcess / ZombieProcess / AccessDenied with pid and cached name, other errors unchanged, "
-            "PID-0 rule on BSD and Solaris, the commented fall-backs); a legacy variant of the model (Windows ppid() undecorated, before fix "
-            "a2d103c) is refuted. About the "
-            "tables regenerated from the code on every run (finite forallb facts lifted with forallb_forall): every probed outcome of every "
-            "(platform, method, call, error, state, pid) meets the contract and equals the model; the four slot maps are bijections onto "
-            "0..n-1 in the order of the native records; every documented method fills its documented tuple from the matching native slots "
-            "(no exclusion: the gids() type and Solaris terminal() defects are fixed in /repo); documented names and Process methods are exposed "
-            "per platform; net_if_addrs() rows equal the model, whose Windows IPv4 broadcast is addr | ~mask for every address and prefix "
-            "and whose MAC padding yields six octets for every 1..6-octet MAC. The same stub layer drives the real modules over the whole "
-            "ladder space on every run, and random records / NIC rows, comparing implementation, model and contract case by case.",
+    "text": "Theorems (Coq, closed under the global context). Hand-written model of the five wrap_exceptions ladders and the per-method "
+            "handlers: for every platform, method name, failing native call, error, process state and pid the outcome is what the documented "
+            "contract demands (NoSuchProcess / ZombieProcess / AccessDenied with pid and cached name, other errors unchanged, PID-0 rule on BSD "
+            "and Solaris only when PID 0 is listed, the commented fall-backs); the same for two-fault sequences (first call fails, the documented "
+            "second route fails: Windows proc_info fall-backs, Windows cmdline PEB/non-PEB, Solaris cred/psinfo), for ERROR_PARTIAL_COPY retried "
+            "k times for every k, and for wait(0) (TimeoutExpired with pid and name while the PID is listed). Excluded and refuted: a PID 0 the OS "
+            "does not list is taken to exist (Solaris, NetBSD cmdline); Windows memory_maps() leaves a QueryDosDevice failure untranslated. Tables "
+            "regenerated from the code on every run (finite forallb facts lifted with forallb_forall): every probed outcome of every (platform, "
+            "method, call, error, state, pid), of every native status code of every PROC_STATUSES (ZombieProcess iff the code means zombie), of "
+            "every pair and retry count meets the contract and equals the model; slot maps are bijections in the order of the native records; "
+            "every documented method -- including the list/dict/row answers cmdline, environ, open_files, net_connections, threads, memory_maps -- "
+            "fills its documented tuple from the matching native slots; documented names, Process methods and the field lists of the system-wide "
+            "named tuples are exposed per platform (Solaris/AIX cpu_times/virtual_memory fields vs the documentation: excluded and refuted); "
+            "net_if_addrs() rows equal the model, whose Windows broadcast is addr | hostbits for every address and prefix (IPv4 netmask in address "
+            "form; IPv4/IPv6 netmask as prefix length; IPv6 netmask in address form is never converted: finding) and whose MAC padding yields six "
+            "octets. The same stub layer drives the real modules over the whole space on every run, comparing implementation, model and contract.",
     "note": "Trusted: Coq kernel + vm_compute; stub native layer and translator (props/_c20_stub.py, props/_c20_probe.py); the documented-"
             "contract tables of coq/C20/Spec.v; CPython errno->exception mapping and ipaddress. Native C layers are not exercised.",
 }
